@@ -203,6 +203,10 @@ class Prov:
         if name in ELEMENT_SELF_NAMES and fi_is_element_method(self, fi):
             return frozenset({"ELEM"})
         if not _is_local(name, fi):
+            from .loader import ancestors as _anc
+            for a in _anc(e):
+                if isinstance(a, ast.Lambda) and any(p.arg == name for p in a.args.args):
+                    return frozenset({"LAMBDAPARAM"})
             # closure variable of an enclosing function?
             p = fi.parent
             while p is not None:
